@@ -28,7 +28,16 @@ func main() {
 	repo := flag.String("repo", "/repo", "repository root")
 	out := flag.String("out", "", "output directory for rewritten files")
 	jsonPath := flag.String("json", "", "overlay file to write")
+	mode := flag.String("mode", "sched", "sched: scheduler yield points; work: work counter (simulated time) in the stream decoders")
 	flag.Parse()
+	if *mode == "work" {
+		if *out == "" || *jsonPath == "" {
+			fmt.Fprintln(os.Stderr, "usage: instr -mode work -repo DIR -out DIR -json FILE")
+			os.Exit(2)
+		}
+		workMode(*repo, *out, *jsonPath)
+		return
+	}
 	if *out == "" || *jsonPath == "" {
 		fmt.Fprintln(os.Stderr, "usage: instr -repo DIR -out DIR -json FILE")
 		os.Exit(2)
@@ -425,5 +434,131 @@ func (p *simPool) Put(x any) {
 	}
 	p.once.Do(func() { p.real.New = p.New })
 	p.real.Put(x)
+}
+`
+
+// workDirs are the packages (relative to the repository root, searched
+// recursively) that receive the work counter: the stream decoders.
+var workDirs = []string{"internal/filter"}
+
+// workMode prepends a call of zzTick() to every function body and every loop
+// body of the decoder packages.  The tick count is the simulated time a decode
+// takes: deterministic, independent of machine load, and it is read by the
+// harness through expvar (internal packages cannot be imported from outside).
+func workMode(repo, out, jsonPath string) {
+	os.RemoveAll(out)
+	overlay := map[string]string{}
+	total := 0
+	for _, top := range workDirs {
+		filepath.Walk(filepath.Join(repo, top), func(path string, info os.FileInfo, err error) error {
+			if err != nil {
+				fmt.Fprintln(os.Stderr, "instr:", err)
+				os.Exit(2)
+			}
+			if !info.IsDir() {
+				return nil
+			}
+			if b := filepath.Base(path); b == "testdata" || strings.HasPrefix(b, ".") {
+				return filepath.SkipDir
+			}
+			ents, _ := os.ReadDir(path)
+			pkgName := ""
+			for _, ent := range ents {
+				name := ent.Name()
+				if ent.IsDir() || !strings.HasSuffix(name, ".go") || strings.HasSuffix(name, "_test.go") {
+					continue
+				}
+				src := filepath.Join(path, name)
+				data, err := os.ReadFile(src)
+				if err != nil {
+					fmt.Fprintln(os.Stderr, "instr:", err)
+					os.Exit(2)
+				}
+				fset := token.NewFileSet()
+				f, err := parser.ParseFile(fset, src, data, parser.ParseComments)
+				if err != nil {
+					fmt.Fprintln(os.Stderr, "instr: cannot parse", src, err)
+					os.Exit(2)
+				}
+				if f.Name.Name == "main" || bytes.Contains(data, []byte("//go:build ignore")) {
+					continue
+				}
+				pkgName = f.Name.Name
+				n := 0
+				tick := func(b *ast.BlockStmt) {
+					if b == nil {
+						return
+					}
+					call := &ast.ExprStmt{X: &ast.CallExpr{Fun: ast.NewIdent("zzTick")}}
+					b.List = append([]ast.Stmt{call}, b.List...)
+					n++
+				}
+				ast.Inspect(f, func(nd ast.Node) bool {
+					switch x := nd.(type) {
+					case *ast.FuncDecl:
+						tick(x.Body)
+					case *ast.FuncLit:
+						tick(x.Body)
+					case *ast.ForStmt:
+						tick(x.Body)
+					case *ast.RangeStmt:
+						tick(x.Body)
+					}
+					return true
+				})
+				if n == 0 {
+					continue
+				}
+				var buf bytes.Buffer
+				if err := format.Node(&buf, fset, f); err != nil {
+					fmt.Fprintln(os.Stderr, "instr: cannot print", src, err)
+					os.Exit(2)
+				}
+				rel, _ := filepath.Rel(repo, src)
+				dst := filepath.Join(out, rel)
+				os.MkdirAll(filepath.Dir(dst), 0o755)
+				if err := os.WriteFile(dst, buf.Bytes(), 0o644); err != nil {
+					fmt.Fprintln(os.Stderr, "instr:", err)
+					os.Exit(2)
+				}
+				overlay[src] = dst
+				total += n
+			}
+			if pkgName != "" {
+				rel, _ := filepath.Rel(repo, path)
+				dst := filepath.Join(out, rel, "zz_verif_work.go")
+				os.MkdirAll(filepath.Dir(dst), 0o755)
+				if err := os.WriteFile(dst, []byte(strings.ReplaceAll(strings.ReplaceAll(workHelperSrc, "PKGNAME", pkgName), "PKGDIR", rel)), 0o644); err != nil {
+					fmt.Fprintln(os.Stderr, "instr:", err)
+					os.Exit(2)
+				}
+				overlay[filepath.Join(path, "zz_verif_work.go")] = dst
+			}
+			return nil
+		})
+	}
+	b, _ := json.MarshalIndent(map[string]any{"Replace": overlay}, "", " ")
+	if err := os.WriteFile(jsonPath, b, 0o644); err != nil {
+		fmt.Fprintln(os.Stderr, "instr:", err)
+		os.Exit(2)
+	}
+	fmt.Printf("instr: %d work-counter sites in %d files\n", total, len(overlay))
+}
+
+const workHelperSrc = `// Code generated by /verif/sim/cmd/instr; added through a build overlay only.
+
+package PKGNAME
+
+import "expvar"
+
+// zzN is incremented without synchronisation: a decode runs on one goroutine
+// at a time (the JPEG producer and its consumer alternate through a pipe), and
+// the harness reads the counter after the decode has finished.
+var zzN int64
+
+func zzTick() { zzN++ }
+
+func init() {
+	expvar.Publish("verif.work.PKGDIR", expvar.Func(func() any { return zzN }))
 }
 `
